@@ -109,3 +109,169 @@ Proof.
   - cbn [Derive_n]. rewrite (Derive_ext _ (fun t => LQ l m t)) by exact IH.
     apply is_derive_unique. apply LQ_is_derive.
 Qed.
+
+(* ------------------------------------------------------------------ pure algebra used below *)
+Lemma algA (n m z X1 X2 X3 X4 : R) :
+  n + 1 <> 0 ->
+  (n + 1) * X1 = (2 * n + 1) * (z * X2 + (m + 1) * X3) - n * X4 ->
+  z * X2 - X4 = (n - m) * X3 ->
+  X1 - X4 = (2 * n + 1) * X3.
+Proof.
+  intros Hn St B. apply Rmult_eq_reg_l with (n + 1); [|exact Hn].
+  replace ((n + 1) * (X1 - X4)) with ((n + 1) * X1 - (n + 1) * X4) by ring. rewrite St.
+  replace (z * X2) with ((n - m) * X3 + X4) by lra. ring.
+Qed.
+
+Lemma algF (n m z Y1 Y2 Y3 Y5 : R) :
+  (n + 1) * Y1 = (2 * n + 1) * (z * Y2 + (m + 1) * Y3) - n * Y5 ->
+  Y1 - Y5 = (2 * n + 1) * Y3 ->
+  (n + 1 - (m + 1)) * Y1 = (2 * n + 1) * z * Y2 - (n + (m + 1)) * Y5.
+Proof.
+  intros St A.
+  replace ((2 * n + 1) * (z * Y2 + (m + 1) * Y3)) with ((2 * n + 1) * z * Y2 + (m + 1) * ((2 * n + 1) * Y3)) in St by ring.
+  rewrite <- A in St. lra.
+Qed.
+
+Lemma algB (k m z W1 W2 W3 W4 W5 W6 W7 : R) :
+  W1 - W5 = (2 * (k + 1) + 1) * W4 ->
+  z * W5 - W7 = (k - m) * W6 ->
+  W2 - W7 = (2 * k + 1) * W6 ->
+  (k + 1 + 1 - m) * W3 = (2 * (k + 1) + 1) * z * W4 - (k + 1 + m) * W6 ->
+  z * W1 - W2 = (k + 1 + 1 - m) * W3.
+Proof.
+  intros A B A' F.
+  assert (E : z * W1 = z * W5 + (2 * (k + 1) + 1) * z * W4).
+  { replace W1 with (W5 + (2 * (k + 1) + 1) * W4) by lra. ring. }
+  lra.
+Qed.
+
+(* ------------------------------------------------------------------ the three-term identities *)
+Lemma LQ_0_S m z : LQ 0 (S m) z = 0.
+Proof. reflexivity. Qed.
+
+(* (B)_n :  z Q_n^(m+1) - Q_(n-1)^(m+1) = (n - m) Q_n^m
+   (A)_n :  Q_(n+1)^(m+1) - Q_(n-1)^(m+1) = (2n+1) Q_n^m          (Q_(-1) read as Q_0^(m+1) = 0) *)
+Definition idB (n : nat) : Prop :=
+  forall m z, z * LQ n (S m) z - LQ (pred n) (S m) z = (INR n - INR m) * LQ n m z.
+Definition idA (n : nat) : Prop :=
+  forall m z, LQ (S n) (S m) z - LQ (pred n) (S m) z = (2 * INR n + 1) * LQ n m z.
+
+Lemma idA_of_idB n : idB n -> idA n.
+Proof.
+  intros B m z.
+  pose proof (LQ_step n (S m) z) as St. cbn [pred] in St. rewrite !S_INR in St.
+  apply (algA (INR n) (INR m) z _ (LQ n (S m) z) _ _).
+  - pose proof (pos_INR n). lra.
+  - exact St.
+  - apply B.
+Qed.
+
+(* fixed-order recurrence from (A)_n *)
+Lemma LQ_fixed_of_idA n : idA n ->
+  forall m z, (INR n + 1 - INR m) * LQ (S n) m z = (2 * INR n + 1) * z * LQ n m z - (INR n + INR m) * LQ (pred n) m z.
+Proof.
+  intros A m z. destruct m as [|m].
+  - pose proof (LQ_step n 0 z) as St. cbn [pred] in St. rewrite S_INR in St. change (INR 0) with 0 in *. lra.
+  - pose proof (LQ_step n (S m) z) as St. cbn [pred] in St. rewrite !S_INR in St. rewrite S_INR.
+    apply (algF (INR n) (INR m) z _ _ (LQ n m z) _ St). apply A.
+Qed.
+
+Lemma idAB n : (idB n /\ idA n) /\ (idB (S n) /\ idA (S n)).
+Proof.
+  induction n as [|k [[B0 A0] [B1 A1]]].
+  - assert (B0 : idB 0).
+    { intros m z. cbn [pred]. rewrite !LQ_0_S. change (INR 0) with 0.
+      destruct m; cbn [LQ]; [change (INR 0) with 0|]; ring. }
+    assert (B1 : idB 1).
+    { intros m z. cbn [pred]. rewrite LQ_0_S. change (INR 1) with 1.
+      destruct m as [|[|m]]; cbn [LQ].
+      - change (INR 0) with 0. ring.
+      - change (INR 1) with 1. ring.
+      - ring. }
+    split; split; auto using idA_of_idB.
+  - split; [split; assumption|].
+    assert (B2 : idB (S (S k))).
+    { intros m z. cbn [pred].
+      pose proof (A1 m z) as HA. cbn [pred] in HA.
+      pose proof (B0 m z) as HB.
+      pose proof (A0 m z) as HA'.
+      pose proof (LQ_fixed_of_idA _ A1 m z) as HF. cbn [pred] in HF.
+      rewrite !S_INR in *.
+      apply (algB (INR k) (INR m) z _ _ _ (LQ (S k) m z) (LQ k (S m) z) (LQ k m z) (LQ (pred k) (S m) z)); assumption. }
+    split; auto using idA_of_idB.
+Qed.
+
+Theorem LQ_fixed_order n m z :
+  (INR n + 1 - INR m) * LQ (S n) m z = (2 * INR n + 1) * z * LQ n m z - (INR n + INR m) * LQ (pred n) m z.
+Proof. apply LQ_fixed_of_idA. apply (idAB n). Qed.
+
+Theorem LQ_raise n m z : LQ (S n) (S m) z - LQ (pred n) (S m) z = (2 * INR n + 1) * LQ n m z.
+Proof. apply (idAB n). Qed.
+
+(* ------------------------------------------------------------------ vanishing above the diagonal, diagonal value *)
+Lemma LQ_above : forall l m z, (l < m)%nat -> LQ l m z = 0.
+Proof.
+  intros l. induction l as [l IH] using lt_wf_ind. intros m z Hlm.
+  destruct l as [|n]; [destruct m; [lia|reflexivity]|].
+  destruct m as [|m]; [lia|].
+  pose proof (LQ_raise n m z) as E.
+  assert (E1 : LQ n m z = 0) by (apply IH; lia).
+  assert (E2 : LQ (pred n) (S m) z = 0) by (apply IH; lia).
+  rewrite E1, E2 in E. lra.
+Qed.
+
+Fixpoint dfact_odd (m : nat) : R :=      (* (2m-1)!! *)
+  match m with O => 1 | S k => (2 * INR k + 1) * dfact_odd k end.
+
+Lemma LQ_diag m z : LQ m m z = dfact_odd m.
+Proof.
+  induction m as [|m IH]; [reflexivity|].
+  pose proof (LQ_raise m m z) as E.
+  assert (E2 : LQ (pred m) (S m) z = 0) by (apply LQ_above; lia).
+  rewrite E2, IH in E. cbn [dfact_odd]. lra.
+Qed.
+
+(* ------------------------------------------------------------------ the division-free recurrence
+   Uq n m z = (U_(m+n)^m, U_(m+n-1)^m):  U_m^m = 1, U_(m-1)^m = 0,
+   U_(l+1)^m = (2l+1) z U_l^m - (l+m)(l-m) U_(l-1)^m   with l = m + n *)
+Fixpoint Uq (n m : nat) (z : R) : R * R :=
+  match n with
+  | O => (1, 0)
+  | S k => let u := Uq k m z in
+           ((2 * INR (m + k) + 1) * z * fst u - (INR (m + k) + INR m) * (INR (m + k) - INR m) * snd u, fst u)
+  end.
+
+Theorem LQ_Uq n m z : INR (fact n) * LQ (m + n) m z = dfact_odd m * fst (Uq n m z).
+Proof.
+  enough (H : INR (fact n) * LQ (m + n) m z = dfact_odd m * fst (Uq n m z) /\
+              INR (fact (S n)) * LQ (m + S n) m z = dfact_odd m * fst (Uq (S n) m z)) by apply H.
+  induction n as [|k [IH0 IH1]].
+  - assert (E0 : INR (fact 0) * LQ (m + 0) m z = dfact_odd m * fst (Uq 0 m z)).
+    { rewrite Nat.add_0_r, LQ_diag. cbn. ring. }
+    split; [exact E0|].
+    replace (m + 1)%nat with (S m) by lia.
+    pose proof (LQ_fixed_order m m z) as F.
+    assert (Z0 : (INR m + INR m) * LQ (pred m) m z = 0).
+    { destruct m as [|m']; [change (INR 0) with 0; ring|]. rewrite LQ_above by (cbn; lia). ring. }
+    rewrite LQ_diag in F. cbn [Uq fst snd fact]. rewrite Nat.add_0_r. change (INR (1 * 1)) with 1. lra.
+  - split; [exact IH1|].
+    replace (m + S (S k))%nat with (S (m + S k)) by lia.
+    pose proof (LQ_fixed_order (m + S k) m z) as F.
+    replace (pred (m + S k)) with (m + k)%nat in F by lia.
+    cbn [Uq fst snd]. cbn [Uq fst snd] in IH1.
+    set (u := Uq k m z) in *.
+    assert (Ef : INR (fact (S (S k))) = (INR k + 1 + 1) * INR (fact (S k))).
+    { change (fact (S (S k))) with (S (S k) * fact (S k))%nat. rewrite mult_INR, !S_INR. ring. }
+    assert (Ef1 : INR (fact (S k)) = (INR k + 1) * INR (fact k)).
+    { change (fact (S k)) with (S k * fact k)%nat. rewrite mult_INR, S_INR. ring. }
+    replace (m + S k)%nat with (S (m + k)) in * by lia.
+    rewrite !S_INR, !plus_INR in *.
+    set (L1 := LQ (S (S (m + k))) m z) in *. set (L2 := LQ (S (m + k)) m z) in *. set (L3 := LQ (m + k)%nat m z) in *.
+    rewrite Ef.
+    replace ((INR k + 1 + 1) * INR (fact (S k)) * L1) with (INR (fact (S k)) * ((INR m + INR k + 1 + 1 - INR m) * L1)) by ring.
+    rewrite F.
+    replace (INR (fact (S k)) * ((2 * (INR m + INR k + 1) + 1) * z * L2 - (INR m + INR k + 1 + INR m) * L3))
+      with ((2 * (INR m + INR k + 1) + 1) * z * (INR (fact (S k)) * L2) - (INR m + INR k + 1 + INR m) * (INR k + 1) * (INR (fact k) * L3))
+      by (rewrite Ef1; ring).
+    rewrite IH1, IH0. ring.
+Qed.
